@@ -96,7 +96,10 @@ def handle (j : Json) : Json :=
                                       | .ok (.null) => .returns (jnat plj "returns")
                                       | .ok v => .raises (asNat v)
                                       | .error _ => .returns (jnat plj "returns")) }
-    let r := dispatchPy (jbool j "restore_c") p (envOf (jget j "task_env")) pl
+    let unresolved := match plj.getObjVal? "unresolved" with
+                      | .ok (.str _) => true
+                      | _ => false
+    let r := if unresolved then dispatchUnresolved p else dispatchPy (jbool j "restore_c") p (envOf (jget j "task_env")) pl
     Json.mkObj [("out", jnl r.1.out), ("err", jnl r.1.err), ("ret", jn r.1.ret),
                 ("val", match r.1.val with | some v => jn v | none => Json.null),
                 ("exc", match r.1.exc with | some v => jn v | none => Json.null),
